@@ -38,7 +38,7 @@ RULE = ("each run draws a body length (dense around 0, 1, 2^14+-2, 2^15, 2^16+-2
         "sizes and ciphertext cuts, and serves it over BOTH TLS backends. distinct = distinct "
         "(length, reader, buffer, cut-signature); non-trivial = body >= 1 byte and the reader or "
         "the network was not the default")
-PROBES = ["file_with_byte_order_mark", "status_21_to_29", "backpressure_pause_writing", "body_ge_16k", "body_ge_64k", "body_ge_6MiB", "half_closing_reader", "nauyaca_client_as_reader", "slow_reader", "bursty_reader",
+PROBES = ["handler_finishes_after_request_timeout", "file_with_byte_order_mark", "status_21_to_29", "backpressure_pause_writing", "body_ge_16k", "body_ge_64k", "body_ge_6MiB", "half_closing_reader", "nauyaca_client_as_reader", "slow_reader", "bursty_reader",
           "ciphertext_cut", "static_file", "start_server", "very_slow_reader_over_30s"]
 COMPONENTS = {
     "real": ["nauyaca.server.protocol._send_response", "nauyaca.server.tls_protocol (TLS pump)",
@@ -122,7 +122,7 @@ def serve_once(ch, backend, cfg, scratch):
                     captured["resp"] = r
                     if cfg["async_handler"]:
                         async def later():
-                            await asyncio.sleep(0.01)
+                            await asyncio.sleep(cfg["hdelay"])
                             return r
                         return later()
                     return r
@@ -162,6 +162,8 @@ def serve_once(ch, backend, cfg, scratch):
         elif cfg["reader"] == "bursty":
             kw = dict(read_pause_until=cfg["pause_until"])
         pscript = [("send", url.encode() + b"\r\n")]
+        if cfg["idle_before_request"]:
+            pscript = [("sleep", cfg["idle_before_request"])] + pscript
         if cfg.get("early_close"):
             # the reader says goodbye (close_notify, FIN) right behind its request and
             # then only reads
@@ -210,7 +212,8 @@ def run_one(ch):
     body = make_body(ch, n)
     if source != "handler":
         # static files are read as UTF-8 text: use LF-only text content
-        s = ("€uro line\n" * (n // 11 + 1)).encode()[:n].decode("utf-8", "ignore")
+        phase = ch.choose("phase", 12)
+        s = ("x" * phase + "€uro line\n" * (n // 11 + 1)).encode()[:n].decode("utf-8", "ignore")
         mark = ch.choose("bom", 4, [8, 1, 1, 0])
         if mark and n >= 3:
             # a file that starts with (or merely contains) U+FEFF: served as it is on disk
@@ -253,6 +256,20 @@ def run_one(ch):
         cfg["pause_until"] = ch.pick("pause", [0.5, 3.0, 12.0])
         cfg["deadline"] = 80.0
 
+    # a handler slower than the 30 s request timeout, or a client that idles 27 s before it
+    # sends its request to a 4 s handler: the complete request is still answered with the body
+    cfg["hdelay"] = 0.01
+    cfg["idle_before_request"] = 0.0
+    if source == "handler" and cfg["async_handler"] and reader != "client":
+        slow = ch.choose("slowhandler", 3, [30, 1, 1])
+        if slow == 1:
+            cfg["hdelay"] = 31.0
+        elif slow == 2:
+            cfg["hdelay"] = 4.0
+            cfg["idle_before_request"] = 27.0
+        if slow:
+            cfg["deadline"] += 40.0
+            res.stats["handler_finishes_after_request_timeout"] += 1
     if reader == "eager" and n <= 200000 and (source == "static" or
                                               (source == "handler" and not cfg["async_handler"])) \
             and ch.chance("early_close", 0.25):
@@ -272,7 +289,7 @@ def run_one(ch):
             res.violate(f"C06/no-response/{backend}", "handler was never invoked", **ctx)
             continue
         exp = sw.expected_wire(resp)
-        if source == "static" and exp.split(b"\r\n", 1)[-1] != body[1] and exp[:2] == b"20":
+        if source == "static" and (exp.split(b"\r\n", 1)[-1] != body[1] or exp[:3] != b"20 ") and body[1]:
             # the file server is the handler here: what it hands over must be the file
             res.violate(f"C06/altered/static-file-differs-from-disk/{backend}",
                         f"StaticFileHandler produced {len(exp.split(b'\r\n', 1)[-1])} body bytes for a "
